@@ -4,4 +4,6 @@ import (
 	_ "google.golang.org/protobuf/verifmc/checks/c01"
 	_ "google.golang.org/protobuf/verifmc/checks/c02"
 	_ "google.golang.org/protobuf/verifmc/checks/c03"
+	_ "google.golang.org/protobuf/verifmc/checks/c07"
+	_ "google.golang.org/protobuf/verifmc/checks/c30"
 )
